@@ -257,6 +257,8 @@ def rule_dimensions(ctx):
 
 def run(ctx):
     from . import c15
+    c15.rule_axis_conditions(ctx)     # R15.9: root-box lookups treat x, y and z alike (particles in the wrong root box exert no force)
+    from . import c15
     c15.rule_moments_every_time(ctx)     # R15.12: tree forces are computed from current sources
     rule_dimensions(ctx)
     from . import c15
